@@ -89,6 +89,18 @@ CLAIMS = {
               "lifecycle scenarios on both bucket kinds compare the done state of every feed after every event with the model and probe that "
               "surviving feeds still receive events.",
               note="Partial: goroutine liveness is observed, not proved."),
+ "C12": claim("Proved on the view model (views.lastCas, mapped rows per document, updateView's delete-and-remap of documents with cas > lastCas, "
+              "the JOIN with documents, the SQL stage and sg-bucket's ProcessParsed stage): an index invariant (exact for every document not newer "
+              "than the view's lastCas; unique keys; every CAS positive and not above the collection's mark) is preserved by EVERY entry point "
+              "other than the WithMeta writes (StepInvariant over the whole step function: writes, deletes, resurrections, xattr-only writes, "
+              "touches, purges and their cascade, expiry sweeps, reopening) and by queries; under it a non-stale query ranges over literally the "
+              "map function applied from scratch to the current documents, for all histories, query placements and parameter combinations "
+              "(C12_history_partial); without keys/grouping the query equals the CouchDB-semantics specification outright. The full statement is "
+              "false with WithMeta writes (C12_full_false; open known finding, replayed on the real code). The JavaScript engine, SQLite's ORDER BY "
+              "with the registered JSON collation and sg-bucket's helpers are modelled (hand-written twins of 4 map functions) and tied by the "
+              "correspondence check plus an independent Python oracle over the KV read-back. One defect found this way was repaired (fix: e833c7c).",
+              note="Partial: WithMeta histories excluded from the theorem (known finding F11); stale=update_after (background goroutine) and include_docs not exercised; "
+                   "keys is not combined with descending/limit, limit not with reduce, grouping not used on object keys (semantics debatable / sg-bucket collator limitation)."),
  "C20": claim("Proved on the shutdown model (atomic actions between instrumentation points): under every sequence of actions nothing panics and "
               "no expiry timer is armed on a closed store; if only refused calls follow the shutdown no feed goroutine is left; a lock ranking "
               "rising along every edge of the lock-order graph REGENERATED from the source excludes deadlock among all threads but the timer "
